@@ -1,5 +1,6 @@
 import Heph.Proofs.ClosedSound
 import Heph.Proofs.ClosedSites
+import Heph.Proofs.ClosedFuel
 import Heph.Proofs.ClosedPool
 import Heph.Proofs.ClosedAssignable
 import Heph.Generated.Keywords
@@ -53,6 +54,49 @@ theorem closedCheck_error (p : Program) (kw : List String) (path why : String) :
 theorem member_lookup_in_hierarchy (tops : List Node) (t : Ty) (nm : String) (cm : Node × TMap) :
     tyClassName t = some nm → cm ∈ hierOfType tops (some t) → SuperOf tops nm cm.1 :=
   hierOfType_superOf tops t nm cm
+
+/-- **fuel adequacy** of the superclass walk: if the class table has a ranking (every superclass reference names a
+    class of smaller rank - no inheritance cycle), every fuel above the rank of a class computes the same hierarchy:
+    member lookup never stops for lack of fuel -/
+theorem hier_fuel_adequate (tops : List Node) (rank : String → Nat) (hr : Ranked tops rank) (name : String)
+    (targs : List Ty) (fuel : Nat) (h : rank name < fuel) :
+    hier tops fuel name targs = hier tops (rank name + 1) name targs :=
+  Heph.Scope.hier_fuel_adequate tops rank hr name targs fuel h
+
+/-- in particular for the fuel `hierOfType` picks (`tops.length + 1`), when ranks stay within the number of
+    declarations (e.g. rank = position of the declaration, superclasses declared first): more fuel changes nothing -/
+theorem hierOfType_fuel_adequate (tops : List Node) (rank : String → Nat) (hr : Ranked tops rank)
+    (hb : ∀ name, rank name ≤ tops.length) (t : Ty) (more : Nat) :
+    hierOfType tops (some t) =
+      match tyClassName t with
+      | none => []
+      | some nm => hier tops (tops.length + 1 + more) nm (tyArgs t) :=
+  Heph.Scope.hierOfType_fuel_adequate tops rank hr hb t more
+
+def tops2 : List Node :=
+  [.classDecl "A" 0 false [] [] [] [], .classDecl "B" 0 false [] [.superInst (.simple "A" []) none] [] []]
+def rank2 (n : String) : Nat := if n = "B" then 1 else 0
+
+/-- the hypotheses are satisfiable: `B extends A` -/
+example : Ranked tops2 rank2 ∧ ∀ name, rank2 name ≤ tops2.length := by
+  refine ⟨?_, fun name => by unfold rank2; split <;> simp [tops2]⟩
+  intro name c hc s hs t ht m nm hn
+  simp only [tops2, findClass, List.find?_cons, isClassDecl, declName, Bool.true_and] at hc
+  split at hc
+  · cases hc; simp [classSupers] at hs
+  · split at hc
+    · next h1 h2 =>
+      cases hc
+      simp only [classSupers, List.mem_singleton] at hs
+      subst hs
+      simp only [superType, Option.some.injEq] at ht
+      subst ht
+      simp only [substTy, tyClassName, Option.some.injEq] at hn
+      subst hn
+      have : "B" = name := by simpa using h2
+      subst this
+      decide
+    · simp at hc
 
 /-- **the quantifier of C05 is honoured**: `Closed` skips no name use.  Every variable reference, call, function
     reference, field access, object creation, assignment, superclass instantiation and declared identifier occurring
